@@ -52,30 +52,69 @@ class _float(float):
     # Python. We manipulate the hash value, to enable the storage of both an int and a float
     # that share the same numerical value within a search index (dict).
 
-    # There is no risk of accidentally equating ints and floats with different values, since the
-    # hash equality is only a necessary, not a sufficient condition for equality.
+    # The shifted hash alone is not sufficient: it can still coincide with the hash of the
+    # equal int (e.g. for -2.0 and -2), so equality is restricted to other _float instances.
     def __hash__(self):
         return super().__hash__() + 1
+
+    def __eq__(self, other):
+        return type(other) is _float and super().__eq__(other)
+
+    def __ne__(self, other):
+        return not self == other
+
+
+class _bool(int):
+    # True and False are equal to (and hash like) the ints 1 and 0. Like _float, this class
+    # allows a bool and the int of the same value to be stored separately in a search index.
+    def __hash__(self):
+        return super().__hash__() + 2
+
+    def __eq__(self, other):
+        return type(other) is _bool and super().__eq__(other)
+
+    def __ne__(self, other):
+        return not self == other
+
+
+def _typed_key(key):
+    """Wrap floats and bools so that they do not collide with equal ints as dict keys."""
+    key_type = type(key)
+    if key_type is float:
+        return _float(key)
+    elif key_type is bool:
+        return _bool(key)
+    return key
+
+
+def _untyped_key(key):
+    """Undo :func:`_typed_key`."""
+    key_type = type(key)
+    if key_type is _float:
+        return float(key)
+    elif key_type is _bool:
+        return bool(key)
+    return key
 
 
 class _TypedSetDefaultDict(dict):
     """Dictionary that is guaranteed to store differently typed values separately.
 
     This is necessary, because the hash value of integers with float type is identical
-    to the same integer as int type, which means they cannot be stored separately in a
-    standard dict.
+    to the same integer as int type (and the hash value of a bool is identical to that
+    of the int 0 or 1), which means they cannot be stored separately in a standard dict.
 
     """
 
     def keys(self):
         for key in dict.keys(self):
-            yield float(key) if type(key) is _float else key
+            yield _untyped_key(key)
 
     __iter__ = keys
 
     def items(self):
         for key, value in dict.items(self):
-            yield float(key) if type(key) is _float else key, value
+            yield _untyped_key(key), value
 
     def __missing__(self, key):
         value = set()
@@ -83,13 +122,13 @@ class _TypedSetDefaultDict(dict):
         return value
 
     def __getitem__(self, key):
-        return dict.__getitem__(self, _float(key) if type(key) is float else key)
+        return dict.__getitem__(self, _typed_key(key))
 
     def __setitem__(self, key, value):
-        return dict.__setitem__(self, _float(key) if type(key) is float else key, value)
+        return dict.__setitem__(self, _typed_key(key), value)
 
     def __delitem__(self, key):
-        dict.__delitem__(self, _float(key) if type(key) is float else key)
+        dict.__delitem__(self, _typed_key(key))
 
     def get(self, key, default=None):
         """Get the value for given key.
@@ -106,7 +145,7 @@ class _TypedSetDefaultDict(dict):
         The value for given key.
 
         """
-        return dict.get(self, _float(key) if type(key) is float else key, default)
+        return dict.get(self, _typed_key(key), default)
 
 
 def _find_with_index_operator(index, op, argument):
@@ -372,9 +411,13 @@ class _SearchIndexer(dict):
             # This way, both `signac find x 4.0` and `signac find x 4` would
             # return jobs where `sp.x` is stored as either 4.0 or 4.
             if isinstance(value, Number) and float(value).is_integer():
-                result_float = index.get(_float(value), set())
+                result_float = index.get(float(value), set())
                 result_int = index.get(int(value), set())
-                return result_int.union(result_float)
+                result = result_int.union(result_float)
+                if value in (0, 1):
+                    # bools are equal to the ints 0 and 1 (but indexed separately)
+                    result = result.union(index.get(bool(value), set()))
+                return result
             else:
                 return index.get(value, set())
 
